@@ -297,16 +297,6 @@ class SQLTranspiler(StructureVisitor, ASTTemplate):
             self._column_prefix = old_prefix
 
     @contextmanager
-    def _stash_assignment(self) -> Generator[None, None, None]:
-        """Temporarily stash the ``current_assignment`` and restore it on exit."""
-        saved = self.current_assignment
-        self.current_assignment = ""
-        try:
-            yield
-        finally:
-            self.current_assignment = saved
-
-    @contextmanager
     def _stash_dp_signature(
         self, signature: Optional[Dict[str, str]]
     ) -> Generator[None, None, None]:
@@ -574,14 +564,7 @@ class SQLTranspiler(StructureVisitor, ASTTemplate):
                 out_name = name
                 if output_name_override is not None:
                     out_name = output_name_override
-                elif (
-                    len(output_measures) == 1
-                    and len(ds.get_measures_names()) == 1
-                    and (
-                        ds.name not in self.input_datasets
-                        or name in self.input_datasets[ds.name].get_measures_names()
-                    )
-                ):
+                elif len(output_measures) == 1 and len(ds.get_measures_names()) == 1:
                     out_name = output_measures[0]
                 cols.append(f"{expr} AS {quote_name(out_name)}")
             elif comp.role == Role.VIRAL_ATTRIBUTE:
@@ -776,11 +759,7 @@ class SQLTranspiler(StructureVisitor, ASTTemplate):
         if common_measures:
             paired_measures = [(m, m) for m in common_measures]
         elif len(left_measures) == 1 and len(right_measures) == 1:
-            if output_measure_names and len(output_measure_names) == 1:
-                out_m = output_measure_names[0]
-                paired_measures = [(out_m, out_m)]
-            else:
-                paired_measures = [(left_measures[0], right_measures[0])]
+            paired_measures = [(left_measures[0], right_measures[0])]
 
         cols: List[str] = []
         for id_name in all_ids:
@@ -3611,10 +3590,9 @@ FROM (
 
     def visit_Validation(self, node: AST.Validation) -> str:
         """Visit CHECK validation operator."""
-        # Stash ``current_assignment`` so _build_ds_ds_binary doesn't rename the
-        # inner comparison's measures to match the outer assignment target.
-        with self._stash_assignment():
-            validation_sql = self.visit(node.validation)
+        # The inner comparison names its measure after its own structure, not after the
+        # outer assignment target.
+        validation_sql = self._visit_operand(node.validation, detached=True)
 
         error_code = self._error_code_sql(node.error_code)
         error_level = self._error_level_sql(node.error_level)
@@ -3639,8 +3617,7 @@ FROM (
         join_cond: Optional[str] = None
         imbalance_col = 'CAST(NULL AS DOUBLE) AS "imbalance"'
         if node.imbalance is not None:
-            with self._stash_assignment():
-                imbalance_sql = self.visit(node.imbalance)
+            imbalance_sql = self._visit_operand(node.imbalance, detached=True)
             imb_ds = self._get_dataset_structure(node.imbalance)
             if imb_ds is not None:
                 join_cond = self._join_on_clause(id_names, "t", "i")
